@@ -178,7 +178,7 @@ fn show_asns<I: Iterator<Item = Asn>>(it: I) -> String {
 /// more than 255 ASNs cannot be composed: then off the Display name). The storage width is a private
 /// field with no accessor: it is read off derive(Debug) and only ever compared with the model, the
 /// oracle never judges it.
-fn show_seg<O: octseq::Octets + std::fmt::Debug>(s: &Segment<O>) -> String {
+pub(crate) fn show_seg<O: octseq::Octets + std::fmt::Debug>(s: &Segment<O>) -> String {
     let ty = if s.asns().take(256).count() <= 255 {
         let mut v: Vec<u8> = Vec::new();
         let _ = s.compose(&mut v);
@@ -195,6 +195,23 @@ fn show_seg<O: octseq::Octets + std::fmt::Debug>(s: &Segment<O>) -> String {
 pub(crate) fn show_hop<O: octseq::Octets + std::fmt::Debug>(h: &Hop<O>) -> String {
     match h { Hop::Asn(a) => format!("a{}", a.into_u32()), Hop::Segment(s) => show_seg(s) }
 }
+
+/// common::iter_protocol on the three iterators of an `AsPath`: hops(), segments() and asns() of its first,
+/// middle and last segment (a macro: the item types depend on the octets type)
+macro_rules! proto_path {
+    ($p:expr, $name:expr, $path:expr) => {{
+        let (p, name, path) = ($p, $name, $path);
+        p.it(&format!("{}.hops()", name), || path.hops(), |h| $crate::props::c13::show_hop(h), 100_000);
+        p.it(&format!("{}.segments()", name), || path.segments(), |s| $crate::props::c13::show_seg(s), 100_000);
+        let n = path.segments().take(100_000).count();
+        for i in [0, n / 2, n.saturating_sub(1)] {
+            if let Some(seg) = path.segments().nth(i) { if i < n {
+                p.it(&format!("{}.segments()[{}].asns()", name, i), || seg.asns(), |a| a.into_u32().to_string(), 70_000);
+            } }
+        }
+    }};
+}
+pub(crate) use proto_path;
 
 pub(crate) fn join(v: Vec<String>) -> String { if v.is_empty() { "-".into() } else { v.join(",") } }
 
@@ -423,7 +440,8 @@ impl Prop for C13 {
                 let bytes = p.clone().into_inner();
                 let chk = if AsPath::check(&bytes, true).is_ok() { "ok" } else { "err" };
                 let hops = join(p.hops().take(100_000).map(|h| show_hop(&h)).collect());
-                format!("ok {} chk={} hops={}", hex(&bytes), chk, hops)
+                let mut pr = Proto::new(); proto_path!(&mut pr, "path", &p);
+                format!("ok {} chk={} hops={} {}", hex(&bytes), chk, hops, pr.token())
             }
             ["compose16", h] => {
                 let Some(h) = parse_api_hops(h) else { return "bad-op".into() };
@@ -433,8 +451,9 @@ impl Prop for C13 {
                 let bytes = p16.clone().into_inner();
                 let chk = if AsPath::check(&bytes, false).is_ok() { "ok" } else { "err" };
                 let hops = join(p16.hops().take(100_000).map(|h| show_hop(&h)).collect());
-                format!("ok {} chk={} eq={} hasheq={} hops={}", hex(&bytes), chk, p16 == p32,
-                    rec_hash(&p16) == rec_hash(&p32), hops)
+                let mut pr = Proto::new(); proto_path!(&mut pr, "path16", &p16);
+                format!("ok {} chk={} eq={} hasheq={} hops={} {}", hex(&bytes), chk, p16 == p32,
+                    rec_hash(&p16) == rec_hash(&p32), hops, pr.token())
             }
             ["count", h] => {
                 let Some(h) = parse_api_hops(h) else { return "bad-op".into() };
@@ -455,7 +474,8 @@ impl Prop for C13 {
                 match n { 1 => hp.prepend(asn), 2 => hp.prepend_arr([asn, asn]), 3 => hp.prepend_arr([asn, asn, asn]), _ => hp.prepend_n(asn, n) }
                 let p: AsPath<Vec<u8>> = hp.to_as_path().unwrap();
                 let hops = join(p.hops().take(100_000).map(|h| show_hop(&h)).collect());
-                format!("ok {} hops={}", hex(&p.into_inner()), hops)
+                let mut pr = Proto::new(); proto_path!(&mut pr, "path", &p);
+                format!("ok {} hops={} {}", hex(&p.into_inner()), hops, pr.token())
             }
             ["wire", ws, hx] => {
                 let (Some(four), Some(bs)) = (parse_w(ws), unhex(hx)) else { return "bad-op".into() };
@@ -465,8 +485,10 @@ impl Prop for C13 {
                 let hops = join(hp.iter().map(show_hop).collect());
                 let b32: AsPath<Vec<u8>> = hp.to_as_path().unwrap();
                 let b16 = match hp.try_to_asn16_path::<Vec<u8>>() { Ok(p) => hex(&p.into_inner()), Err(_) => "err".into() };
-                format!("ok segs={} hops={} back32={} back16={} count={} single={}", segs, hops,
-                    hex(&b32.into_inner()), b16, hp.hop_count_path_selection(), p.is_single_sequence())
+                let mut pr = Proto::new(); proto_path!(&mut pr, "path", &p);
+                pr.it("hop_path.iter()", || hp.iter(), |h| show_hop(*h), 100_000);
+                format!("ok segs={} hops={} back32={} back16={} count={} single={} {}", segs, hops,
+                    hex(&b32.into_inner()), b16, hp.hop_count_path_selection(), p.is_single_sequence(), pr.token())
             }
             ["prepend", ws, hx, a, n] => {
                 let (Some(four), Some(bs), Some(a), Some(n)) = (parse_w(ws), unhex(hx), parse_u32_strict(a), n.parse::<usize>().ok())
@@ -475,7 +497,8 @@ impl Prop for C13 {
                 let asn = Asn::from_u32(a);
                 let r = match n { 2 => p.prepend_arr([asn, asn]).unwrap(), 4 => p.prepend_arr([asn, asn, asn, asn]).unwrap(), _ => p.prepend(asn, n).unwrap() };
                 let hops = join(r.hops().take(100_000).map(|h| show_hop(&h)).collect());
-                format!("ok {} hops={}", hex(&r.into_inner()), hops)
+                let mut pr = Proto::new(); proto_path!(&mut pr, "path", &r);
+                format!("ok {} hops={} {}", hex(&r.into_inner()), hops, pr.token())
             }
             ["eq", w1, h1, w2, h2] => {
                 let (Some(f1), Some(b1), Some(f2), Some(b2)) = (parse_w(w1), unhex(h1), parse_w(w2), unhex(h2))
@@ -491,6 +514,7 @@ impl Prop for C13 {
     fn oracle(&self, line: &str, reply: &str) -> Result<(), String> {
         let w: Vec<&str> = line.split(' ').collect();
         if reply == "bad-op" { return Ok(()); }
+        proto_judge(reply)?;
         match w.as_slice() {
             ["compose", h] | ["compose16", h] => {
                 let wide = w[0] == "compose";
